@@ -259,7 +259,10 @@ def c07(tier):
     vg.vg2e(P, C)
     # the first-pixel array of every pixel read is as long as the image has axes, and the image has no more axes than cfitsio handles
     vg.vg2f(P, C)
-    # 'on every table that a read returns, evaluation is memory-safe': the stack arrays sized by the order need the order bounded
+    # 'on every table that a read returns, evaluation is memory-safe': whichever core the evaluator selects for a loaded table walks the
+    # coefficients as the generic core does
+    dp.cl1(P, C)
+    # ... and the stack arrays sized by the order need the order bounded
     kb.kb9(P, C)
     # a crafted file cannot make the reader transfer more elements than the array it allocated holds
     fs.fs7(P, C)
@@ -363,6 +366,8 @@ def c05(tier):
     dp.dp(P, C, variant="driver-noevaltmpl")
     # ... and how far a known-order core walks is decided by its compile-time chunk count
     dp.dp7(P, C)
+    # ... and each specialised core walks the coefficients exactly as the generic core does (the carry step runs between chunks, never after the last)
+    dp.cl1(P, C)
     kb.sc123(P, C)      # the centre range (clamps, adjustment, search interval) is what keeps the coefficient walk in bounds
     C.extra["vla_declarators"] = n
     C.extra["units"] = sorted(P.units.keys())
@@ -488,6 +493,7 @@ def c10(tier):
     # entries of the normal matrix are dropped only below machine epsilon; the right-hand side has a value in every entry
     sp.sp8(P, C)
     sg.sg10(P, C)
+    sg.sg11(P, C)
     gw.gw9(P, C)
     # clause 2 (inactive constraint returns the unconstrained fit) needs the solver to run to its optimum
     sg.sg7(P, C)
@@ -532,6 +538,7 @@ def c11(tier):
     sp.sp7(P, C)
     sp.sp8(P, C)
     sg.sg10(P, C)
+    sg.sg11(P, C)
     # 'terminates and returns the optimum': leaving the outer loop on the iteration cap is not convergence
     sg.sg9(P, C)
     return C.finish()
@@ -605,6 +612,8 @@ def c19(tier):
     C.extra["units"] = sorted(P.units.keys())
     # every request goes through two helpers: they ask the allocator for exactly what the model counts
     sm.sm9(P, C)
+    # the per-key budget bounds what the reader stores only for strings taken from fixed buffers
+    sm.sm10(P, C)
     return C.finish()
 
 
